@@ -341,7 +341,7 @@ func newCase(sch *crypto.Scheme, n, thr, me int, period, genesis, now int64, sto
 
 // ---------------------------------------------------------------------------------------------
 
-var mutations = []string{"", "", "", "flip", "trunc", "short", "wrongmsg"}
+var mutations = []string{"", "", "", "flip", "trunc", "short", "wrongmsg", "msgcur", "msgm1"}
 
 // advance moves the node's clock by d seconds (at most up to the next round boundary) so that a
 // woken catch-up sleeper and a tick never fall into the same clock advance: the node never rests
